@@ -166,17 +166,17 @@ class UdpInverterProtocol(InverterProtocol, asyncio.DatagramProtocol):
             logger.debug("Response already handled: %s", data.hex())
         except RequestRejectedException as ex:
             logger.debug("Received exception response: %s", data.hex())
-            self._retry = 0
             if self.response_future and not self.response_future.done():
                 self.response_future.set_exception(ex)
+                self._retry = 0
             self._close_transport()
 
     def error_received(self, exc: Exception) -> None:
         """On error received"""
         logger.debug("Received error: %s", exc)
-        self._retry = 0
         try:
             self.response_future.set_exception(exc)
+            self._retry = 0
         except asyncio.InvalidStateError:
             logger.debug("Response already handled, error ignored: %s", exc)
         self._close_transport()
@@ -308,8 +308,8 @@ class TcpInverterProtocol(InverterProtocol, asyncio.Protocol):
                 self._retry = 0
             else:
                 logger.debug("Received invalid response: %s", data.hex())
-                self._retry = 0
                 self.response_future.set_exception(RequestRejectedException())
+                self._retry = 0
                 self._close_transport()
         except PartialResponseException as ex:
             logger.debug("Received response fragment (%d of %d): %s", ex.length, ex.expected, data.hex())
@@ -320,17 +320,17 @@ class TcpInverterProtocol(InverterProtocol, asyncio.Protocol):
             logger.debug("Response already handled: %s", data.hex())
         except RequestRejectedException as ex:
             logger.debug("Received exception response: %s", data.hex())
-            self._retry = 0
             if self.response_future and not self.response_future.done():
                 self.response_future.set_exception(ex)
+                self._retry = 0
             # self._close_transport()
 
     def error_received(self, exc: Exception) -> None:
         """On error received"""
         logger.debug("Received error: %s", exc)
-        self._retry = 0
         try:
             self.response_future.set_exception(exc)
+            self._retry = 0
         except asyncio.InvalidStateError:
             logger.debug("Response already handled, error ignored: %s", exc)
         self._close_transport()
